@@ -444,6 +444,9 @@ def hCreatePod (inp out : Json) : Except String Findings := do
   let fs := if emptyTerms then fs else spec fs "C10.pinned" (Spec.C10.pinned pod item.node.name aff)
   let fs := if emptyTerms then fs else spec fs "C10.read-back" (!aff || readBack == item.node.name)
   let fs := spec fs "C10.meta" (Spec.C10.metaOk pod rs)
+  -- C13: the hash stamped on a pod is the recorded hash of the replica set it is created for,
+  -- whatever the template's own annotations say
+  let fs := spec fs "C13.pod-hash-stamp" (SMap.get? pod.annotations K.templateHashAnnot == some rs.templateGeneration)
   let fs := if distinctNames then spec fs "C10.resources" (Spec.C10.resources pod rs.template item.node item.setting) else fs
   let fs := spec fs "C10.roundtrip" same
   let fs := spec fs "C10.roundtrip-stored" sameStored
@@ -505,6 +508,11 @@ def hSelectNodes (inp out : Json) : Except String Findings := do
       let fs := spec fs "C15.new-valid" (Spec.C15.newValid t c nodes current res)
       let fs := spec fs "C15.keep" (Spec.C15.keep t c nodes current res)
       let fs := spec fs "C15.count" (Spec.C15.count c base current res err)
+      -- C04: the controller never adds nodes beyond the resolved request (a list that is already
+      -- longer, e.g. after replicas was lowered, does not grow)
+      let fs := match Spec.C15.requested c base with
+        | some k => spec fs "C04.list-growth(selectNodes)" (decide ((res.length : Int) ≤ max k current.length))
+        | none => fs
       let fs := spec fs "C15.all-valid" (err || Spec.C15.allValid t c nodes res)
       -- metamorphic: a previously selected node that is still listed but no longer valid must not
       -- influence the outcome (it takes no slot, no quota): the selection equals the selection made
